@@ -30,7 +30,7 @@ ASSUMPTIONS = [
     "only what the statement demands: J1 == J2 (and J3), not E1 == E2",
     "json_ref_dict materialize is trusted; J1 is served from memory after a json.dumps/json.loads round trip",
 ]
-BUDGET = {"quick": 300, "thorough": 4500}
+BUDGET = {"quick": 450, "thorough": 4500}
 
 observe.register_formats()
 
